@@ -10,6 +10,7 @@ import (
 	"github.com/cometbft/cometbft/libs/log"
 	tmproto "github.com/cometbft/cometbft/proto/tendermint/types"
 	"github.com/cosmos/cosmos-sdk/baseapp"
+	sdk "github.com/cosmos/cosmos-sdk/types"
 
 	"github.com/unification-com/mainchain/app"
 )
@@ -74,6 +75,25 @@ func (c *chain) reimport() (old *app.App, problems []string) {
 		}()
 		a2.CrisisKeeper.AssertInvariants(a2.BaseApp.NewContext(true, tmproto.Header{ChainID: chainID, Height: a2.LastBlockHeight()}))
 	}()
+	// the query servers answer alike on both chains (every list query, the per-account and per-record point queries)
+	var people []sdk.AccAddress
+	for _, ac := range c.accts {
+		people = append(people, ac.addr)
+	}
+	q1, q2 := queryDigest(c.app, people), queryDigest(a2, people)
+	nq := 0
+	for _, k := range sortedStrings(q1) {
+		if q1[k] != q2[k] && nq < 4 {
+			nq++
+			problems = append(problems, fmt.Sprintf("query %s answers differently on the chain started from the exported state: %.300s  vs  %.300s", k, q1[k], q2[k]))
+		}
+	}
+	for _, k := range sortedStrings(q2) {
+		if _, ok := q1[k]; !ok && nq < 4 {
+			nq++
+			problems = append(problems, fmt.Sprintf("query %s is answered only on the chain started from the exported state: %.300s", k, q2[k]))
+		}
+	}
 	old = c.app
 	c.app = a2
 	c.db = db2
